@@ -28,8 +28,8 @@ BUILTIN = [
     ("c10-timeout-100s", "C10", PKG + "utils.py", "stdout, stderr = process.communicate(timeout=1)", "stdout, stderr = process.communicate(timeout=100)"),
     ("c10-narrow-except", "C10", PKG + "compiler.py", "        except Exception as e:\n            if self._raise_exceptions:\n                raise e\n            import traceback",
      "        except (ValueError, TypeError, KeyError, AttributeError, AssertionError) as e:\n            if self._raise_exceptions:\n                raise e\n            import traceback"),
-    ("c11-cache-key-call-text", "C11", PKG + "utils.py", "    if code in _eval_constexpr_cache:\n        return _eval_constexpr_cache[code]",
-     "    code_key = call_node.as_string()\n    if code_key in _eval_constexpr_cache:\n        return _eval_constexpr_cache[code_key]"),
+    ("c11-cache-key-call-text", "C11", PKG + "utils.py", "_eval_constexpr_cache[code]", "_eval_constexpr_cache[call_node.as_string()]", "all",
+     ("    if code in _eval_constexpr_cache:", "    if call_node.as_string() in _eval_constexpr_cache:")),
     ("c14-no-flush", "C14", PKG + "mod_daemon.py", "print(encoded, flush=True, file=_stdout)", "print(encoded, file=_stdout)"),
     ("c14-print-to-sys-stdout", "C14", PKG + "mod_daemon.py", "print(encoded, flush=True, file=_stdout)", "print(encoded, flush=True)"),
     ("c14-answer-empty-lines", "C14", PKG + "mod_daemon.py", "    if not line:\n        return\n\n    response = None", "    response = None"),
@@ -74,8 +74,9 @@ def scratch_copy():
 
 def mutants():
     out = []
-    for name, prop, f, old, new in BUILTIN:
-        out.append({"name": name, "property": prop, "kind": "replace", "file": f, "old": old, "new": new})
+    for name, prop, f, old, new, *rest in BUILTIN:
+        out.append({"name": name, "property": prop, "kind": "replace", "file": f, "old": old, "new": new, "all": bool(rest),
+                    "more": [r for r in rest if isinstance(r, tuple)]})
     for name, prop, commit in REVERTS:
         out.append({"name": name, "property": prop, "kind": "revert", "commit": commit})
     for meta in sorted(glob.glob(os.path.join(VERIF, "seeded", "*", "meta.json"))):
@@ -96,10 +97,15 @@ def apply(m, d):
         p = os.path.join(d, m["file"])
         with open(p) as f:
             s = f.read()
-        if s.count(m["old"]) != 1:
+        if s.count(m["old"]) != 1 and not (m.get("all") and s.count(m["old"]) > 1):
             return "anchor text occurs %d times in %s" % (s.count(m["old"]), m["file"])
+        s = s.replace(m["old"], m["new"])
+        for old, new in m.get("more") or []:
+            if s.count(old) != 1:
+                return "anchor text occurs %d times in %s" % (s.count(old), m["file"])
+            s = s.replace(old, new)
         with open(p, "w") as f:
-            f.write(s.replace(m["old"], m["new"]))
+            f.write(s)
         return None
     if m["kind"] == "revert":
         patch = subprocess.run(["git", "-C", REPO, "show", "--format=", m["commit"], "--", "src"], capture_output=True)
